@@ -487,6 +487,11 @@ func Attribute(run *core.Run, misses []Miss, opts ChainOpts, accept func(o *Batc
 				run.IsKnown(sig)
 				continue
 			}
+			// prefix entries "a>*": every minimal chain that starts with link a (one root cause tied to that link)
+			if i := strings.Index(k, ">"); i > 0 && known[k[:i]+">*"+sigSuffix] {
+				run.IsKnown(k[:i] + ">*" + sigSuffix)
+				continue
+			}
 			// Field-sensitive mode loses flows of multi-link chains on the pinned tree in a way that is not
 			// attributable link pair by link pair (see DESIGN, known finding "*multi-link@field-sensitive"):
 			// a multi-link minimal chain that fails ONLY under field-sensitive configurations is attributed to it.
